@@ -350,6 +350,35 @@ func (h *heap) compareNode(n *mnode) error {
 		return errf("object#%d: Values() has %d entries, model %d", n.id, vals.Count(), len(n.fields))
 	}
 	used := make([]bool, vals.Count())
+	// big objects: Values() is matched as a multiset through a map first (the quadratic scan below is kept
+	// for small objects and for anything the map cannot hold)
+	fastVals := false
+	if len(n.fields) > 48 {
+		bag := map[any]int{}
+		ok := true
+		for i := 0; i < vals.Count() && ok; i++ {
+			switch v := vals.Get(i).(type) {
+			case nil, bool, int, float64, string, at.List, at.Object:
+				if f, isF := v.(float64); isF && f != f {
+					ok = false
+				}
+				bag[v]++
+			default:
+				ok = false
+			}
+		}
+		if ok {
+			for _, e := range n.fields {
+				bag[e.goValue()]--
+			}
+			for _, c := range bag {
+				if c != 0 {
+					ok = false
+				}
+			}
+		}
+		fastVals = ok // on any mismatch the scan below finds and names the field
+	}
 	for _, k := range sortedFieldKeys(n) {
 		e := n.fields[k]
 		if !o.KeyExists(k) {
@@ -367,8 +396,8 @@ func (h *heap) compareNode(n *mnode) error {
 			return errf("object#%d[%+q]: Dict entry = %s (present %v), model %v", n.id, k, showAny(d), ok, e)
 		}
 		// Values() as a multiset
-		found := false
-		for i := 0; i < vals.Count(); i++ {
+		found := fastVals
+		for i := 0; i < vals.Count() && !found; i++ {
 			if !used[i] && e.eqAny(vals.Get(i)) {
 				used[i] = true
 				found = true
